@@ -16,7 +16,9 @@ type User struct {
 	ID     int64 `gorm:"primaryKey"`
 	Name   string
 	BossID *int64
-	Boss   *Boss    // belongs to
+	Boss   *Boss    // belongs to, pointer field, pointer key column
+	CoID   int64
+	Co     Co       // belongs to, struct field, non-pointer key column
 	Items  []Item   `gorm:"foreignKey:UserID"` // has many, struct elements, non-pointer key column
 	SItems []*SItem `gorm:"foreignKey:UserID"` // has many, pointer elements, soft-delete target
 	Pet    Pet      `gorm:"foreignKey:UserID"` // has one, struct field
@@ -34,6 +36,11 @@ type Team struct {
 }
 
 type Boss struct {
+	ID   int64 `gorm:"primaryKey"`
+	Name string
+}
+
+type Co struct {
 	ID   int64 `gorm:"primaryKey"`
 	Name string
 }
@@ -90,7 +97,7 @@ type Part struct {
 	Name string
 }
 
-var allModels = []interface{}{&User{}, &Team{}, &Boss{}, &Item{}, &SItem{}, &Pet{}, &Tag{}, &Toy{}, &Badge{}, &Org{}, &Part{}}
+var allModels = []interface{}{&User{}, &Team{}, &Boss{}, &Co{}, &Item{}, &SItem{}, &Pet{}, &Tag{}, &Toy{}, &Badge{}, &Org{}, &Part{}}
 
 // ---- relation specifications -------------------------------------------------
 
@@ -114,6 +121,8 @@ type relSpec struct {
 	targetT   reflect.Type
 	ownerTab  string
 	targetTab string
+	fkCol     string // belongs-to: key column on the owner row
+	fkField   string
 	tables    []string // tables emptied per case
 	linkSQL   string   // -> (target key, owner key "table:key")
 	recSQL    string   // -> (target key, name, soft-deleted 0/1)
@@ -132,7 +141,11 @@ var specs = []*relSpec{
 		tables:  []string{"users", "pets"},
 		linkSQL: "SELECT CAST(id AS TEXT), 'users:' || user_id FROM pets WHERE user_id IS NOT NULL",
 		recSQL:  "SELECT CAST(id AS TEXT), name, 0 FROM pets"},
-	{name: "belongs_to", field: "Boss", store: fkOwner, single: true, ownerT: reflect.TypeOf(User{}), targetT: reflect.TypeOf(Boss{}), ownerTab: "users", targetTab: "bosses",
+	{name: "belongs_to_valkey", field: "Co", store: fkOwner, single: true, ownerT: reflect.TypeOf(User{}), targetT: reflect.TypeOf(Co{}), ownerTab: "users", targetTab: "cos", fkCol: "co_id", fkField: "CoID",
+		tables:  []string{"users", "cos"},
+		linkSQL: "SELECT CAST(co_id AS TEXT), 'users:' || id FROM users WHERE co_id IS NOT NULL",
+		recSQL:  "SELECT CAST(id AS TEXT), name, 0 FROM cos"},
+	{name: "belongs_to", field: "Boss", store: fkOwner, single: true, ownerT: reflect.TypeOf(User{}), targetT: reflect.TypeOf(Boss{}), ownerTab: "users", targetTab: "bosses", fkCol: "boss_id", fkField: "BossID",
 		tables:  []string{"users", "bosses"},
 		linkSQL: "SELECT CAST(boss_id AS TEXT), 'users:' || id FROM users WHERE boss_id IS NOT NULL",
 		recSQL:  "SELECT CAST(id AS TEXT), name, 0 FROM bosses"},
@@ -213,7 +226,7 @@ func (s *relSpec) insLink(ok, tk string) {
 	case s.store == joinRows:
 		_, err = H.SQL.Exec("INSERT INTO user_tags(user_id,tag_id) VALUES (?,?)", atoi(key), atoi(tk))
 	case s.store == fkOwner:
-		_, err = H.SQL.Exec("UPDATE users SET boss_id = ? WHERE id = ?", atoi(tk), atoi(key))
+		_, err = H.SQL.Exec("UPDATE users SET "+s.fkCol+" = ? WHERE id = ?", atoi(tk), atoi(key))
 	case s.poly:
 		_, err = H.SQL.Exec("UPDATE "+s.targetTab+" SET owner_id = ?, owner_type = ? WHERE id = ?", atoi(key), table, atoi(tk))
 	default:
@@ -280,10 +293,10 @@ func (s *relSpec) idsByName(name string) []string {
 	return out
 }
 
-func (s *relSpec) ownerBossID(ok string) *int64 {
+func (s *relSpec) ownerFK(ok string) *int64 {
 	_, key := splitOwner(ok)
 	var v *int64
-	must(H.SQL.QueryRow("SELECT boss_id FROM users WHERE id = ?", atoi(key)).Scan(&v))
+	must(H.SQL.QueryRow("SELECT "+s.fkCol+" FROM users WHERE id = ?", atoi(key)).Scan(&v))
 	return v
 }
 
@@ -385,7 +398,11 @@ func (s *relSpec) setOwner(v reflect.Value, ok, name string, boss *int64) {
 	v.FieldByName("Name").SetString(name)
 	if s.store == fkOwner && boss != nil {
 		b := *boss
-		v.FieldByName("BossID").Set(reflect.ValueOf(&b))
+		if f := v.FieldByName(s.fkField); f.Kind() == reflect.Ptr {
+			f.Set(reflect.ValueOf(&b))
+		} else {
+			f.SetInt(b)
+		}
 	}
 }
 
